@@ -362,6 +362,8 @@ func extractMain(args []string) {
 					fmt.Fprintf(&lean, "def %s : String := \"<missing>\"\n", id)
 				case "calls":
 					fmt.Fprintf(&lean, "def %s : List String := [\"<missing>\"]\n", id)
+				case "walk":
+					fmt.Fprintf(&lean, "def %s : List (String × String) := [(\"start\", \"<missing>\")]\n", id)
 				case "switch", "casebody":
 					fmt.Fprintf(&lean, "def %s : List (List String × String) := [([\"<missing>\"], \"\")]\n", id)
 				}
@@ -399,6 +401,14 @@ func extractMain(args []string) {
 				}
 				fmt.Fprintf(&lean, "def %s : List (List String × String) := [%s]\n", id, strings.Join(rows, ", "))
 				facts[id] = bodies
+			case "walk":
+				v := walkFact(fset, fd, pi)
+				var rows []string
+				for _, r := range v {
+					rows = append(rows, fmt.Sprintf("(%s, %s)", leanString(r[0]), leanString(r[1])))
+				}
+				fmt.Fprintf(&lean, "def %s : List (String × String) := [%s]\n", id, strings.Join(rows, ", "))
+				facts[id] = v
 			case "src":
 				v := srcFact(fset, fd)
 				fmt.Fprintf(&lean, "def %s : String := %s\n", id, leanString(v))
